@@ -245,6 +245,8 @@ def tlc(module, cfg=None, pid="misc", workers=4, timeout=1800, env=None, simulat
                     res.depth = int(re.search(r"is (\d+)", s).group(1))
                 elif s.startswith("Error: Invariant ") and "is violated" in s:
                     res.inv_violated = re.search(r"Invariant (\S+) is violated", s).group(1)
+                elif s.startswith("Error: Temporal property ") and "was violated" in s:
+                    res.inv_violated = res.inv_violated or re.search(r"Temporal property (\S+) was violated", s).group(1)
                 elif "Error: Action property" in s or "Error: Temporal properties were violated" in s:
                     res.inv_violated = res.inv_violated or "property"
                 elif s.startswith("Error:") and res.error is None and "is violated" not in s:
